@@ -23,7 +23,7 @@ pub fn checks() -> Vec<&'static dyn Check> {
     static C04: Lifecycle = Lifecycle { id: "C04", events: &["close_reopen", "drop_reopen"] };
     static C05: Lifecycle = Lifecycle { id: "C05", events: &["compact"] };
     static C06: Lifecycle = Lifecycle { id: "C06", events: &[] };
-    static C07: Lifecycle = Lifecycle { id: "C07", events: &["abandon"] };
+    static C07: Lifecycle = Lifecycle { id: "C07", events: &["abandon", "failed_commit"] };
     static C28: Lifecycle = Lifecycle { id: "C28", events: &["vacuum"] };
     vec![&C04, &C05, &C06, &C07, &C28]
 }
@@ -40,7 +40,12 @@ pub fn ops_to_json(ops: &[Op]) -> Vec<serde_json::Value> {
 pub fn valid_history(ops: &[Op]) -> bool {
     let mut m = Model::default();
     for op in ops {
-        if let Op::Txn { ops, commit } = op {
+        let (ops, commit, target) = match op {
+            Op::Txn { ops, commit } => (ops, commit, None),
+            Op::FailingTxn { ops, target } => (ops, &false, Some(*target)),
+            _ => continue,
+        };
+        {
             let mut c = m.clone();
             for t in ops {
                 let ok = match t {
@@ -73,6 +78,11 @@ pub fn valid_history(ops: &[Op]) -> bool {
                     return false;
                 }
                 c.apply(t);
+            }
+            if let Some(t) = target
+                && !c.g.nodes.contains_key(&t)
+            {
+                return false;
             }
             if *commit {
                 m = c;
@@ -115,6 +125,13 @@ pub fn run_history(ops: &[Op], seed: u64, stats: &mut Stats, tag: &str) -> Resul
         let out = r.exec(op);
         stats.inc("evaluations");
         stats.inc(&format!("op:{}", op.kind()));
+        if !out.ok && out.err.as_deref().unwrap_or("").starts_with("EXPECTED-FAILURE-MISSING") {
+            stats.inc("inconclusive:oversized_commit_accepted");
+            return Ok(None);
+        }
+        if let Op::FailingTxn { .. } = op {
+            stats.inc("probe:commit_failed_as_arranged");
+        }
         if !out.ok {
             return Ok(Some(FirstBad {
                 at: i,
@@ -181,6 +198,7 @@ impl Lifecycle {
                 if rng.chance(0.7) {
                     k.w_txn[10] = 6; // vectors
                 }
+                k.failing_commits = true;
             }
             "C28" => {
                 k.w_top = [40, 2, *rng.pick(&[0, 6, 15]), 3, 0, 0, *rng.pick(&[6, 12])];
